@@ -60,3 +60,21 @@ func VerifNewFilterSubscription(log logutil.Log, parent Subscription, f filter.F
 func VerifNewFilterPublisher(log logutil.Log, sub FilterSubscription) FilterController {
 	return newFilterPublisher(log, sub)
 }
+
+// VerifUnwrap exposes the parts of a filtered clone (its filter subscription
+// and its publisher) so that a harness can relate the public object to the
+// actors named in the trace.
+func VerifUnwrap(c Controller) (sub interface{}, pub interface{}) {
+	if fc, ok := c.(*filterController); ok {
+		return fc.subscription, fc.parent
+	}
+	return nil, c
+}
+
+// VerifMonitorSub exposes the subscription a monitor consumes.
+func VerifMonitorSub(m Monitor) interface{} {
+	if mm, ok := m.(*monitor); ok {
+		return mm.sub
+	}
+	return nil
+}
